@@ -9,6 +9,31 @@ TB = ("Coq 8.16.1 kernel; hand-written Gallina model tied to /repo by the corres
       "OCaml runner/main.ml; Python harness. See DESIGN.md section 7.")
 
 CLAIMED = {
+ "C12": dict(
+   text="19 theorems over the abstract *-ring (executed in Cyc32) about a Gallina model of cqmap.CQMap and cqmap.Functor: "
+        "every well-typed pure circuit evaluates mixed to the doubled map conj(U) (x) U of its pure evaluation (per box and "
+        "through CQMap.tensor); CQMap.measure has the Born closed form for every n, measuring a doubled state gives "
+        "conj(a) a; discard is the trace / marginal; Encode = Measure-dagger and MixedState = Discard-dagger for all flag "
+        "combinations with transposed types; box images have the images of the declared types; trace preservation is the "
+        "discard law, holds for unitaries (C11), preparations, stochastic classical gates, Copy, destructive Measure, "
+        "Discard, constructive Encode and swaps, is closed under tensor and then, hence for every well-typed circuit of "
+        "such boxes, and get_counts entries sum to 1.  Partial: the swap network of CQMap.tensor equals its closed form "
+        "only by correspondence; non-destructive Measure trace preservation and non-negativity by oracle.  Tie to /repo: "
+        "exact Cyc32 vs eval(mixed=True) at 1e-9, doubling / Born / counts / adjointness oracles.",
+   design="6/C12", engine="coq-cq",
+   technique="Coq proof (abstract *-ring, induction on layers) + correspondence vs mixed evaluation + Born-rule oracles"),
+ "C16": dict(
+   text="15 theorems: for every supported box and every phase (abstractly: every PhaseAlg over a *-ring, instantiated by "
+        "the k/16 grid in Cyc32 and by the phase units of any *-ring) the ZX diagram produced by gate2zx is well-typed "
+        "with the box's arity and its standard interpretation equals an explicit unit scalar times the box's evaluation; "
+        "circuit2zx of a well-typed circuit denotes the circuit's evaluation up to one unit factor (induction over the "
+        "functor loop); arity preserved; the dagger of every well-typed ZX diagram denotes the conjugate transpose; X and "
+        "Y spiders are the Hadamard / basis-change conjugates of Z spiders; refutation witnesses for the pinned (pre-fix) "
+        "controlled-rotation decompositions and soundness of the repair.  Tie to /repo: exact syntactic comparison of "
+        "circuit2zx output (rational phases), numeric standard interpretation vs Circuit.eval() up to one non-zero factor, "
+        "dagger oracle.",
+   design="6/C16", engine="coq-zx",
+   technique="Coq proof (ring identities per gate, functor induction) + exact syntactic correspondence + numeric interpretation oracle"),
  "C15": dict(
    text="22 theorems about a Gallina model of grad / jacobian (product rule over layers exactly as tensor.Diagram.grad "
         "recurses, per-box rules for rotations pure and parameter-shift, controlled rotations, scalars, tensor boxes as "
@@ -227,6 +252,8 @@ man = {
    ("coq-quantum", "coq/Quantum", "abstract *-ring, exact ring Cyc32, bit-indexed matrices, gate tables and pure circuit evaluation + Coq theorems + extracted runner"),
    ("coq-param", "coq/Param", "Gallina model of parametrised boxes (polynomial phases), subs / lambdify / free_symbols + Coq theorems + extracted runner"),
    ("coq-grad", "coq/Grad", "Gallina model of diagrammatic gradients on the Param model + Coq theorems + extracted runner"),
+   ("coq-cq", "coq/CQ", "Gallina model of classical-quantum maps and mixed circuit evaluation over the abstract *-ring + Coq theorems + extracted runner"),
+   ("coq-zx", "coq/ZX", "Gallina model of gate2zx / circuit2zx and the standard ZX interpretation over the abstract *-ring + Coq theorems + extracted runner"),
    ("coq-tensor", "coq/Tensor", "Gallina model of numpy primitives and discopy.tensor.Tensor over Gaussian integers + Coq theorems + extracted runner"),
  ]],
  "checks": checks,
